@@ -77,13 +77,14 @@ type Ctx struct {
 	exhaustive bool
 	extra      map[string]any
 	replayN    int64
+	sets       map[string]map[string]struct{}
 }
 
 func NewCtx(prop, tier string, seed int64) *Ctx {
 	c := &Ctx{Prop: prop, Tier: tier, Seed: seed, start: time.Now(),
 		nontrivial: map[string]struct{}{}, counters: map[string]int64{},
 		knownHits: map[string]int64{}, knownWhat: map[string]string{}, inconclWhy: map[string]int64{},
-		extra: map[string]any{}}
+		extra: map[string]any{}, sets: map[string]map[string]struct{}{}}
 	c.loadFindings()
 	return c
 }
@@ -170,6 +171,20 @@ func (c *Ctx) Evals(n int64) { atomic.AddInt64(&c.evals, n) }
 func (c *Ctx) Distinct(sig string) {
 	c.mu.Lock()
 	c.nontrivial[shortHash(sig)] = struct{}{}
+	c.mu.Unlock()
+}
+
+// Seen adds sig to the named set of observed things (interleaving fingerprints, states, shapes);
+// the evidence file reports the size of every set as counter "distinct.<name>".
+func (c *Ctx) Seen(name, sig string) {
+	h := shortHash(sig)
+	c.mu.Lock()
+	m := c.sets[name]
+	if m == nil {
+		m = map[string]struct{}{}
+		c.sets[name] = m
+	}
+	m[h] = struct{}{}
 	c.mu.Unlock()
 }
 
@@ -312,6 +327,7 @@ type ChildResult struct {
 	Extra      map[string]any    `json:"extra"`
 	KnownHits  map[string]int64  `json:"known_hits"`
 	KnownWhat  map[string]string `json:"known_what"`
+	Sets       map[string][]string `json:"sets,omitempty"`
 }
 
 // ChildDump serialises everything recorded so far (child side).
@@ -322,6 +338,14 @@ func (c *Ctx) ChildDump(path string) error {
 		Inconcl: c.inconclWhy, Extra: c.extra, KnownHits: c.knownHits, KnownWhat: c.knownWhat}
 	for k := range c.nontrivial {
 		r.Nontrivial = append(r.Nontrivial, k)
+	}
+	if len(c.sets) > 0 {
+		r.Sets = map[string][]string{}
+		for n, m := range c.sets {
+			for k := range m {
+				r.Sets[n] = append(r.Sets[n], k)
+			}
+		}
 	}
 	b, err := json.Marshal(r)
 	if err != nil {
@@ -355,6 +379,16 @@ func (c *Ctx) Merge(r *ChildResult) {
 		c.inconcl += v
 		c.inconclWhy[k] += v
 	}
+	for n, ks := range r.Sets {
+		m := c.sets[n]
+		if m == nil {
+			m = map[string]struct{}{}
+			c.sets[n] = m
+		}
+		for _, k := range ks {
+			m[k] = struct{}{}
+		}
+	}
 	for k, v := range r.KnownHits {
 		c.knownHits[k] += v
 		c.knownWhat[k] = r.KnownWhat[k]
@@ -377,6 +411,9 @@ func (c *Ctx) Finish() int {
 	sort.Strings(ids)
 	for _, id := range ids {
 		fmt.Printf("KNOWN-FINDING: property=%s %s [%s, observed %d times]\n", c.Prop, c.knownWhat[id], id, c.knownHits[id])
+	}
+	for n, m := range c.sets {
+		c.counters["distinct."+n] = int64(len(m))
 	}
 	wall := time.Since(c.start).Seconds()
 	cov := map[string]any{
